@@ -61,7 +61,11 @@ def run(tier, t0):
             # concurrent run: about 2400 (quick) / 9600 (thorough) selections in all, a multiple of n per task; the heavy contention is the hammer's job
             per = 40 * n if mode == "seq" else (((9600 if thorough else 2400) // ntasks) // n + 1) * n
         algo_yaml = {"rr": "rr", "random": "random"}.get(algo) or '{hashBy: "%s"}' % arg.replace('"', '\\"')
-        yaml = "name: lb\ntype: loadbalance\nconnectors: [%s]\nalgo: %s\n" % (", ".join(ms), algo_yaml)
+        # both spellings of the key and of the algorithm names (algo / algorithm, rr / roundRobin, hashBy / hash)
+        key_name = "algorithm" if si % 2 else "algo"
+        if si % 4 >= 2:
+            algo_yaml = {"rr": "roundRobin"}.get(algo_yaml, algo_yaml.replace("{hashBy:", "{hash:"))
+        yaml = "name: lb\ntype: loadbalance\nconnectors: [%s]\n%s: %s\n" % (", ".join(ms), key_name, algo_yaml)
         reqs = reqs_pool(rnd, 40)
         case = {"id": si, "yaml": yaml, "lb": "lb", "members": uniq, "tasks": ntasks, "per_task": per, "reqs": reqs}
         cp = os.path.join(wd, "lb_%d.ndjson" % si)
